@@ -87,9 +87,8 @@ def handleOne (c : Json) : Json :=
   let kw := (jL (jF c "kw")).map fun p => (jN (jAt p 0), pvOf (jAt p 1))
   let m := modeOf (jF c "mode")
   let g := gate cfg args kw
-  -- the coarse set of permitted values is only consulted for `*args` functions and when the name `self` is in play
-  let needAllowed := cfg.sig.varArgs || kw.any (·.1 == selfName) || cfg.ps.any (·.name == selfName)
-    || (cfg.sig.pos.drop 1 ++ cfg.sig.kwOnly).any (·.name == selfName)
+  -- the coarse set of permitted values is only consulted for `*args` functions (every other call is judged by name)
+  let needAllowed := cfg.sig.varArgs
   mkObj [("model", exJ bindingJ (runValidate cfg (jB (jF c "async")) m args kw)),
          ("spec", mkObj [("byName", exJ assocJ (byName cfg m args kw)),
                          ("gate", mkObj [("journal", jArr (g.journal.map fun e => jArr [jNat e.1, jNat e.2.1, pvJ e.2.2])),
